@@ -174,8 +174,21 @@ Definition k_after (reconnect : bool) (tr : list ev) : option nat :=
   mon_from (after_step reconnect) a_bad 0
            {| a_closed := None; a_curmsg := (0, 0); a_seen := None; a_bad := false |} tr.
 
-(** ** known findings: none for C18 *)
-Definition known_class (reconnect : bool) (l : list attempt) (tr : list ev) : N := 0%N.
+(** ** known findings
+
+    KF 1 (DEFECT C18_1): a bare client, Close called while a second or later
+    Subscribe call is in progress. *)
+Fixpoint stale_close (nsub nret : nat) (tr : list ev) : bool :=
+  match tr with
+  | [] => false
+  | ESubCall :: tr' => stale_close (S nsub) nret tr'
+  | ESubRet _ :: tr' => stale_close nsub (S nret) tr'
+  | ECloseCall :: tr' => (Nat.leb 2 nsub && Nat.ltb nret nsub) || stale_close nsub nret tr'
+  | _ :: tr' => stale_close nsub nret tr'
+  end.
+
+Definition known_class (reconnect : bool) (l : list attempt) (tr : list ev) : N :=
+  if negb reconnect && stale_close 0 0 tr then 1%N else 0%N.
 
 (** ** verdicts *)
 
@@ -183,7 +196,12 @@ Definition case := (bool * list attempt * list ev)%type.
 
 Definition fuel := 200.
 
+(** acceptance by the model of the code as it is now (with the DEFECT C18_1 branch) *)
 Definition model_accepts (reconnect : bool) (l : list attempt) (tr : list ev) : nat + list st :=
+  accepts (step_now reconnect (sc_of l)) st_beq ev_beq fuel init tr.
+
+(** acceptance by [step] alone, i.e. outside the known-finding class *)
+Definition model_accepts_strict (reconnect : bool) (l : list attempt) (tr : list ev) : nat + list st :=
   accepts (step reconnect (sc_of l)) st_beq ev_beq fuel init tr.
 
 Definition tagk (k : N) (t : N) : N := match k with 0%N => t | _ => (10 + k)%N end.
